@@ -97,6 +97,7 @@ def build(cfg, log_starts, log_aux, kseed):
         "Bio[Borda]": lambda: BioConsert([rs(BordaCount())]),
         "Bio[Copeland,KwikSort]": lambda: BioConsert([rs(CopelandMethod()), rs(KwikSortRandom())]),
         "Bio[PickAPerm]": lambda: BioConsert([rs(PickAPerm())]),
+        "Bio[Borda,BordaBid]": lambda: BioConsert([rs(BordaCount()), rs(BordaCount(use_bucket_id=True))]),
         "Bio[PickAPerm,Copeland]": lambda: BioConsert([rs(PickAPerm()), rs(CopelandMethod())]),
         "Bio[Borda,Copeland,KwikSort]": lambda: BioConsert([rs(BordaCount()), rs(CopelandMethod()),
                                                              rs(KwikSortRandom())]),
@@ -104,6 +105,7 @@ def build(cfg, log_starts, log_aux, kseed):
         "ParCons(b0,BioConsert)": lambda: ParCons(auxiliary_algorithm=ra(BioConsert()), bound_for_exact=0),
         "ParCons(b1,KwikSort)": lambda: ParCons(auxiliary_algorithm=ra(KwikSortRandom()), bound_for_exact=1),
         "ParCons(b2,Borda)": lambda: ParCons(auxiliary_algorithm=ra(BordaCount()), bound_for_exact=2),
+        "ParCons(b3,BioConsert)": lambda: ParCons(auxiliary_algorithm=ra(BioConsert()), bound_for_exact=3),
         "ParCons(b0,BioCo)": lambda: ParCons(auxiliary_algorithm=ra(BioCo()), bound_for_exact=0),
         "ParCons(b0,ParCons(b0,Borda))": lambda: ParCons(
             auxiliary_algorithm=ra(ParCons(auxiliary_algorithm=BordaCount(), bound_for_exact=0)), bound_for_exact=0),
@@ -120,9 +122,9 @@ def build(cfg, log_starts, log_aux, kseed):
 
 NEEDS_CPLEX = ("ExactCplex(opt)", "ExactCplex(noopt)", "ExactOptim1")
 ALL_CONFIGS = ["Borda", "BordaBid", "Copeland", "PickAPerm", "KwikSort", "BioConsert", "BioCo", "Bio[Borda]",
-               "Bio[Copeland,KwikSort]", "Bio[PickAPerm]", "Bio[PickAPerm,Copeland]",
+               "Bio[Copeland,KwikSort]", "Bio[PickAPerm]", "Bio[PickAPerm,Copeland]", "Bio[Borda,BordaBid]",
                "Bio[Borda,Copeland,KwikSort]", "ParCons", "ParCons(b0,BioConsert)", "ParCons(b1,KwikSort)",
-               "ParCons(b2,Borda)", "ParCons(b0,BioCo)", "ParCons(b0,ParCons(b0,Borda))", "ParCons(b80,rec)",
+               "ParCons(b2,Borda)", "ParCons(b3,BioConsert)", "ParCons(b0,BioCo)", "ParCons(b0,ParCons(b0,Borda))", "ParCons(b80,rec)",
                "ExactPulp", "Exact(opt)", "Exact(noopt)", "ExactCplex(opt)", "ExactCplex(noopt)", "ExactOptim1"]
 
 
@@ -171,6 +173,45 @@ def run_case(case):
     except Exception as ex:
         rec["out"] = "error:build:" + type(ex).__name__
         return rec
+    reuse = case.get("reuse")
+    if reuse:
+        # history before the measured run: the SAME algorithm object (and, for "mutate", the SAME dataset object) is
+        # used first, its consensus score is read, then the dataset is modified in place / another dataset is given
+        try:
+            if reuse["kind"] == "mutate":
+                try:
+                    c0 = alg.compute_consensus_rankings(ds, ss, bool(case["flag"]))
+                    _ = c0.kemeny_score
+                    _ = c0.description()
+                except Exception:
+                    pass
+                ds.unified_rankings()
+                ds.get_positions()
+                for op in reuse["ops"]:
+                    if op["op"] == "remove_elements":
+                        ds.remove_elements({am.value(x) for x in op["S"]})
+                    elif op["op"] == "remove_rate":
+                        ds.remove_elements_rate_presence_lower_than(op["p"] / op["q"])
+                    else:
+                        ds.remove_empty_rankings()
+                rec["D"] = [am.ranking(r) for r in ds.rankings]
+                rec["complete"] = 1 if ds.is_complete else 0
+                if any(0 in b for r in rec["D"] for b in r):
+                    raise ValueError("projection")
+            else:
+                B0, T0, u0 = reuse["sch0"]
+                ds0 = Dataset.from_raw_list(core.Absmap(case["naming"], reuse["D0"]).raw_dataset(reuse["D0"]))
+                try:
+                    c0 = alg.compute_consensus_rankings(ds0, SS(core.scheme_float(B0, T0, u0)), bool(case["flag"]))
+                    _ = c0.kemeny_score
+                    _ = c0.description()
+                except Exception:
+                    pass
+        except Exception as ex:
+            rec["out"] = "setup-failed"
+            return rec
+        del log_starts[:]
+        del log_aux[:]
     try:
         p = alg.is_scoring_scheme_relevant_when_incomplete_rankings(ss)
         rec["pred"] = "true" if p is True else "false" if p is False else "exc:NotBool"
